@@ -3,6 +3,7 @@
 //!   --dump <prog>                one JSON line per (mode, path): variables, path condition, assumptions,
 //!                                ensures, identity obligations, outputs, term DAG
 //!   --eval <prog> <f64|f32> name=value ...   replay: run the real code concretely on a counterexample
+mod lane;
 mod logic;
 mod num;
 mod progs;
